@@ -319,6 +319,21 @@ class C18(Check):
                     else:
                         if both_nonempty and not same:
                             ctx.violate("concatenate_different_scaling_refused", sig, "sets with different scalings were concatenated")
+                            # (known finding) the result mixes two scalings under one set of attributes: it is not adopted
+                            # into the pool, the operands must still be unchanged
+                            self.unchanged(ctx, ds, before, "concatenate", sig)
+                            self.unchanged(ctx, ds2, b2, "concatenate", sig)
+                            ctx.state(("cross-scaling concat accepted",))
+                            continue
+                        if not both_nonempty and (len(m.recs) > 0 or len(m2.recs) > 0):
+                            # documented: "if either data set is empty, the other one is returned" - the result must carry the
+                            # non-empty operand's scaling attributes
+                            ne = ds if len(m.recs) > 0 else ds2
+                            if res.is_scaled() != ne.is_scaled() or (ne.is_scaled() and not ne.same_scaling(res)):
+                                ctx.violate("concatenate_with_empty_operand", sig, "concatenation with an empty operand returns the samples of the non-empty operand under the empty operand's scaling attributes")
+                                self.unchanged(ctx, ds, before, "concatenate", sig)
+                                self.unchanged(ctx, ds2, b2, "concatenate", sig)
+                                continue
                         if match_pairs(self.actual_pairs(res), m.pairs() + m2.pairs()) is None:
                             ctx.violate("multiset_preserved", dict(sig, op=k), "concatenation differs from the union of its operands")
                         if both_nonempty:
